@@ -3,6 +3,7 @@ import PdshVerif.Hostlist.Cli
 import PdshVerif.Hostlist.Probed
 import PdshVerif.Hostlist.Spec
 import Driver.Util
+import Driver.HlEdit
 
 /-! line protocol of the `hl` engine (see harness/hl_harness.c for the format):
     `pdshmodel hl model`  — the executable model of hostlist.c / opt.c
@@ -120,6 +121,8 @@ def main (args : List String) : IO UInt32 := do
   match args with
   | ["model"] => Driver.forLines stdin (none : Option HL) stepModel; return 0
   | ["spec"] => Driver.forLines stdin () stepSpec; return 0
-  | _ => IO.eprintln "usage: pdshmodel hl model|spec"; return 2
+  | ["edit"] => Driver.forLines stdin (Driver.HlEdit.St.none) Driver.HlEdit.stepEdit; return 0
+  | ["plspec"] => Driver.forLines stdin (none : Option EditSpec.PL) Driver.HlEdit.stepPL; return 0
+  | _ => IO.eprintln "usage: pdshmodel hl model|spec|edit|plspec"; return 2
 
 end Driver.HlDrv
